@@ -114,6 +114,24 @@ Fixpoint mem_str (n : string) (l : list string) : bool :=
 Definition keep_spec (t : tbl) (names : list string) : tbl :=
   {| tlen := tlen t; tcols := filter (fun c => mem_str (cname c) names) (tcols t) |}.
 
+(* The same selection with columns given "by name or by object".  Every column of the table carries the identity
+   of the object that holds it (ids, parallel to tcols); an argument is a name, a column object -- its identity and
+   the (name, identity) list of the DataMatrix it belongs to -- or something else.  A column is kept iff it is
+   named or is one of the objects passed. *)
+Inductive oarg := OStr (s : string) | OColumn (self : nat) (owner : list (string * nat)) | OOther.
+Definition selects (a : oarg) (name : string) (id : nat) : bool :=
+  match a with
+  | OStr s => String.eqb name s
+  | OColumn self _ => Nat.eqb id self
+  | OOther => false
+  end.
+Definition keep_by_identity (t : tbl) (ids : list nat) (args : list oarg) : tbl :=
+  {| tlen := tlen t;
+     tcols := map fst (filter (fun ci => existsb (fun a => selects a (cname (fst ci)) (snd ci)) args)
+                              (combine (tcols t) ids)) |}.
+(* the (name, identity) list of table t itself *)
+Definition own_table (t : tbl) (ids : list nat) : list (string * nat) := combine (map cname (tcols t)) ids.
+
 (* ---------------------------------------------------------------- z *)
 (* the numeric cells of a column as exact rationals (finite numbers only) *)
 Definition q_of_dy (d : Z * Z) : Q :=
